@@ -21,6 +21,9 @@ expect() {
     C16b-*) echo "C16 C01" ;;
     C07c-*) echo "C07 C06" ;;
     C03d-*) echo "C03 C12" ;;
+    C12d-*) echo "C12 C06" ;;
+    C04d-*) echo "C04 C01" ;;
+    C01d-*) echo "C01" ;;
     C19-retry-budget-off-by-one) echo "" ;; # deliberately not flagged (DESIGN.md §11)
     *) echo "${1:0:3}" ;;
   esac
